@@ -11,7 +11,7 @@ import aiohttp
 from sim import rallyenv
 from sim.simes import Installed, Outcome, SimES
 from sim.vclock import Proc, VClock
-from sim.vloop import VLoop
+from sim.vloop import VLoop, pending_tasks
 
 
 class SimParamSource:
@@ -132,6 +132,7 @@ class TraceLog:
     def __init__(self, clock):
         self.clock = clock
         self.events = []  # (kind, session, path, vnow, perf)
+        self.requests = []  # one record per HTTP request: {"session", "path", "start": (vnow, perf), "start_idx", "ends": [(vnow, perf, idx)]}
 
     def config(self):
         tc = aiohttp.TraceConfig()
@@ -139,10 +140,17 @@ class TraceLog:
 
         async def on_start(session, ctx, params):
             ctx.path = params.url.path
-            log.events.append(("start", session, ctx.path, log.clock.now, log.clock.now + log.clock.proc.perf_origin))
+            perf = log.clock.now + log.clock.proc.perf_origin
+            ctx.rec = {"session": session, "path": ctx.path, "start": (log.clock.now, perf), "start_idx": len(log.events), "ends": []}
+            log.requests.append(ctx.rec)
+            log.events.append(("start", session, ctx.path, log.clock.now, perf))
 
         async def on_end(session, ctx, params):
-            log.events.append(("end", session, getattr(ctx, "path", None), log.clock.now, log.clock.now + log.clock.proc.perf_origin))
+            perf = log.clock.now + log.clock.proc.perf_origin
+            rec = getattr(ctx, "rec", None)
+            if rec is not None:
+                rec["ends"].append((log.clock.now, perf, len(log.events)))
+            log.events.append(("end", session, getattr(ctx, "path", None), log.clock.now, perf))
 
         tc.on_request_start.append(on_start)
         tc.on_response_chunk_received.append(on_end)
@@ -158,6 +166,7 @@ class ScheduleObserver:
         self.clock = clock
         self.handles = {}  # (task name, client index in task) -> dict
         self.saved = None
+        self.trace = None  # optional TraceLog: every yield notes how many trace events had happened
 
     def __enter__(self):
         from esrally.driver import driver
@@ -178,7 +187,7 @@ class ScheduleObserver:
             async def wrapper():
                 try:
                     async for item in agen:
-                        r["yields"].append((obs.clock.now, item[0], item[1], item[2]))
+                        r["yields"].append((obs.clock.now, item[0], item[1], item[2], len(obs.trace.events) if obs.trace is not None else None))
                         yield item
                 finally:
                     await agen.aclose()
@@ -227,6 +236,7 @@ class LoadSim:
         self.queue_size = queue_size
         self.workers = []
         self.trace = TraceLog(clock)
+        self.sample_marks = {}  # id(sample) -> number of trace events at the time it was recorded
         self.steps = 0
         self.timers = []  # (time, seqno, fn) harness-side events (external completion, drains)
         self._tseq = 0
@@ -249,6 +259,14 @@ class LoadSim:
             sampler = driver.Sampler(start_timestamp=self.clock.perf(), buffer_size=self.queue_size)
         finally:
             self.clock.proc = saved
+        # observation only: how many trace events had happened when a sample was recorded
+        orig_put, marks, trace = sampler.q.put_nowait, self.sample_marks, self.trace
+
+        def put_nowait(sample):
+            marks[id(sample)] = len(trace.events)
+            return orig_put(sample)
+
+        sampler.q.put_nowait = put_nowait
         cancel = threading.Event()
         complete = threading.Event()
         contexts = {cid: driver.ClientContext(client_id=cid, parent_worker_id=len(self.workers)) for cid in client_ids}
@@ -319,7 +337,7 @@ class LoadSim:
         for w in self.workers:
             loop = w.loop
             for _ in range(3):
-                pending = [t for t in asyncio.all_tasks(loop) if not t.done()]
+                pending = pending_tasks(loop)
                 if not pending:
                     break
                 for t in pending:
